@@ -47,7 +47,14 @@ func parseCcfg(s string) ccfg {
 func (c ccfg) compiler() *compiler.Compiler {
 	k := compiler.New()
 	if c.pretty {
-		k = k.WithPrettyPrint(func(o *compiler.PrettyPrintOptions) { o.IndentString = c.indent }, compiler.WithSemi(c.semi))
+		// through the public option constructors where one produces this indent string
+		indentOpt := func(o *compiler.PrettyPrintOptions) { o.IndentString = c.indent }
+		if c.indent == "\t" {
+			indentOpt = compiler.WithTabs()
+		} else if c.indent != "" && strings.Trim(c.indent, " ") == "" {
+			indentOpt = compiler.WithSpaces(len(c.indent))
+		}
+		k = k.WithPrettyPrint(indentOpt, compiler.WithSemi(c.semi))
 	}
 	if c.withMap {
 		k = k.WithSourceMap()
@@ -344,6 +351,16 @@ func runPrint(line string) string {
 		prog, _ = b.p.ParseProgram()
 	} else {
 		prog = readProgram(rest)
+	}
+	// Compile is a function of (configuration, tree): in two thirds of the cases the tree
+	// has already been compiled once or twice (pretty with tabs, then compact with a map)
+	// before the observed compilation
+	for k := len(line) % 3; k > 0; k-- {
+		pre := ccfg{pretty: k == 1, indent: "\t", semi: true, withMap: k == 2}
+		func() {
+			defer func() { recover() }()
+			pre.compiler().Compile(prog)
+		}()
 	}
 	return compileObservable(c, prog)
 }
